@@ -7,7 +7,7 @@ EXPLANATION = ('(1) per-character kernels write_utf8/write_utf16/utf8_measure/ut
                '(2) every public pointer+length conversion (12 pairs + wchar_t aliases) on the standard encoding of K arbitrary scalars, in each validation mode, '
                'equals the standard encoding in the target form (reference encoder); (3) chains X->Y->X return the original units and Latin-1->UTF->Latin-1 is the identity; '
                '(4) ST::string routes (ctor/set/from_*/to_*/operator= for each unit width, char_buffer, std::basic_string, string_view) agree with the free functions.')
-BOUNDS = {'quick': 'kernels: all scalars (no sequence bound); sequences: K<=2 scalars (<=8 UTF-8 bytes, <=4 UTF-16 units), Latin-1 <=4 bytes; one query per mode',
+BOUNDS = {'quick': 'kernels: all scalars (no sequence bound); sequences: K<=2 scalars (<=8 UTF-8 bytes, <=4 UTF-16 units), Latin-1 <=4 bytes; one query per mode; STL routes (from_std_string overload set, to_std_* members): one or two characters',
           'thorough': 'K<=3 scalars (<=12 UTF-8 bytes), Latin-1 <=8 bytes'}
 OUTSIDE = 'sequences longer than K scalars (each loop iteration depends only on the <=4 units at the cursor: argued, not mechanised); std::basic_string objects are built (and read back) by libstdc++ code that is translated along with the library (its allocation goes through the heap model); u8string (char8_t) overloads and to_path/from_path'
 
